@@ -282,6 +282,37 @@ func (c *shardCtl) foldNew() (*proto.WriteResponse, []refPutOutcome, error) {
 	return last, lastOut, nil
 }
 
+// foldFrom folds the entries (folded, upTo] of the given log into the model (they are known to be committed).
+func (c *shardCtl) foldFrom(w wal.Wal, upTo int64) error {
+	ents, err := readLog(w, c.folded)
+	if err != nil {
+		return err
+	}
+	for _, e := range ents {
+		if e.Offset > upTo {
+			break
+		}
+		if e.Offset != c.folded+1 {
+			return fmt.Errorf("log continues at offset %d, the model is at %d", e.Offset, c.folded)
+		}
+		if c.onFold != nil {
+			c.onFold(e)
+		}
+		ws, err := decodeEntry(e)
+		if err != nil {
+			return err
+		}
+		if en, ok := c.termNotif[e.Term]; ok {
+			c.model.NotificationsEnabled = en
+		}
+		for _, wr := range ws {
+			c.model.Apply(wr, e.Offset, e.Timestamp)
+		}
+		c.folded = e.Offset
+	}
+	return nil
+}
+
 // dumpDB returns the full ordered content of a DB.
 func dumpDB(db kv.DB) (out []dumpEntry, err error) {
 	defer func() {
